@@ -24,3 +24,4 @@ LEVEL_TEXT = "exploration: end-to-end contract of solve() against brute force on
 LEVEL_NOTE = "trusted: specs/den.py, specs/sugar_ref.py (deduction mode of the external solver), z3; scope: <= 4 variables, domains <= 4 values"
 TRUSTED = ["specs/den.py", "specs/sugar_ref.py", "z3 through cspuz's own back end"]
 ASSUMPTIONS = ["external solvers replaced by the reference implementation"]
+HARNESS_MODULES = ["contracts.c02_refinement"]
